@@ -42,7 +42,9 @@ PROPS = {
             f"{MAT}.drop_old_proposals",
         ],
         lemmas=["proposal_eq_is_key_equality", "proposal_hash_respects_eq", "proposal_lt_strict_total_order_on_keys"],
-        bounded=[],
+        bounded=[dict(kind="native_script", name="history-freedom on the real Matryoshka: every arrival order and replacement history "
+                                                 "of a proposal set (ties included) gives one target",
+                      module="native.explore_matryoshka")],
         level="proof",
         explanation="Envelope: contracts on the three _bounds functions and an inductive invariant for the priority sweep "
                     "(any number of proposals). History-freedom: _calc_target_power is proved pure (frame) and "
